@@ -701,7 +701,12 @@ class Agent_0(rpu.AgentComponent):
     def stop(self):
 
         self._log.info('stop agent')
-        self._final_cause = 'cancel'
+
+        # do not overwrite a cause which was recorded before `stop()` got
+        # called (`_check_lifetime` sets 'timeout' and then stops the agent)
+        if self._final_cause is None:
+            self._final_cause = 'cancel'
+
         super().stop()
         self._session.close()
 
